@@ -140,11 +140,16 @@ func IndexFromFile(ctx context.Context,
 		if w.err != nil {
 			return index, stats, w.err
 		}
-		// Stop if this worker reached the end of the stream (it's not necessarily
-		// the last worker!)
-		if w.eof {
+		// Stop once the index covers the whole file. A worker that reached the end
+		// of the stream is not necessarily the one whose chunks complete the index:
+		// it may have been skipped by its predecessor (stopped and its bucket
+		// drained), in which case a later worker holds the remaining chunks.
+		if uint64(index.Length()) >= size {
 			break
 		}
+	}
+	if uint64(index.Length()) != size {
+		return index, stats, fmt.Errorf("index covers %d bytes of a %d byte file", index.Length(), size)
 	}
 	return index, stats, nil
 }
